@@ -78,6 +78,7 @@ func init() {
 			{"", "cellInRange", "cellInRange"},
 			{"xlsxMergeCell", "Rect", "mergeCellRect"},
 			{"", "bstrUnmarshal", "bstrUnmarshal"},
+			{"File", "GetRows", "GetRows"},
 			{"", "isOverlap", "isOverlap"},
 			{"", "mergeCell", "mergeCell"},
 			{"", "flatMergedCells", "flatMergedCells"},
